@@ -79,7 +79,8 @@ impl Vm {
         state: Box<ParserState<'a, &'a str>>,
     ) -> ParseResult<Box<ParserState<'a, &'a str>>> {
         #[cfg(pest_parser_pest_verif)]
-        let _verif_guard = pest::verif::vm_rule_guard(rule, state.position().pos());
+        let _verif_guard =
+            pest::verif::vm_rule_guard(rule, state.position().pos(), state.atomicity() as u8);
         if let Some(ref listener) = self.listener {
             if listener(rule.to_owned(), state.position()) {
                 return Err(ParserState::new(state.position().line_of()));
